@@ -117,3 +117,171 @@ Proof.
   all: try (repeat split; eauto; rewrite ?app_length, ?set_nth_length; simpl; try lia; try (inversion Apo; auto; fail); fail).
   all: split; [inversion Apo; auto|]; split; auto; destruct (p_wid pr); auto.
 Qed.
+
+(* ------------------------------------------------------------------ index, texts, files, readers, outputs *)
+Definition wpc_of (pc : spc) : option (nat * list Z) :=
+  match pc with PW2 g t | PW3 g t | PW3L g t | PW4 g t | PW5 g t => Some (g, t) | _ => None end.
+Definition pending_pc (pc : spc) (g : nat) (t : list Z) : Prop := pc = PW2 g t \/ pc = PW3 g t \/ pc = PW3L g t \/ pc = PW4 g t.
+
+Definition files_ok (s : sstate) : Prop :=
+  forall g t, In (g, t) (ss_texts s) -> exists w off, idx_get (ss_index s) g = Some (w, off) /\
+    (written (nth w (ss_files s) []) off t
+     \/ (off = length (nth w (ss_files s) []) /\ exists p pr, ss_lock s = Some p /\ nth_error (ss_procs s) p = Some pr
+                                                   /\ p_wid pr = Some w /\ pending_pc (p_pc pr) g t)).
+Definition out_spec (texts : list (nat * list Z)) (o : sop) (r : sres) : Prop :=
+  match o with
+  | SRead g => r = RIndexError \/ exists t, r = RText t /\ In (g, t) texts
+  | SWrite g t => (r = RUnit /\ In (g, t) texts) \/ (r = RValueError /\ In g (map fst texts))
+  | _ => True end.
+Record BInv (s : sstate) : Prop := {
+  b_nd : NoDup (map fst (ss_texts s));
+  b_idx : forall g, stored (ss_index s) g <-> In g (map fst (ss_texts s));
+  b_tok : Forall (fun e => text_ok (snd e)) (ss_texts s);
+  b_files : files_ok s;
+  b_wpc : forall p pr g t, nth_error (ss_procs s) p = Some pr -> wpc_of (p_pc pr) = Some (g, t) -> In (g, t) (ss_texts s);
+  b_rd : forall p pr g w off, nth_error (ss_procs s) p = Some pr -> p_pc pr = PR2 g w off ->
+           exists t, In (g, t) (ss_texts s) /\ written (nth w (ss_files s) []) off t;
+  b_out : forall p pr o r, nth_error (ss_procs s) p = Some pr -> In (o, r) (p_out pr) -> out_spec (ss_texts s) o r;
+}.
+Lemma out_mono texts texts' o r : (forall x, In x texts -> In x texts') -> out_spec texts o r -> out_spec texts' o r.
+Proof.
+  intros M. unfold out_spec. destruct o; auto.
+  - intros [[-> H]|[-> H]]; [left; auto | right; split; auto]. apply in_map_iff in H. destruct H as (x & <- & Hx). apply in_map. auto.
+  - intros [->|(t0 & -> & H)]; [left; auto | right; eauto].
+Qed.
+
+Lemma written_nonempty_file files w off t : written (nth w files []) off t -> w < length files.
+Proof.
+  intros (pre & post & E & _). destruct (Nat.lt_ge_cases w (length files)); auto. rewrite nth_overflow in E by auto.
+  destruct pre; destruct t; discriminate.
+Qed.
+Lemma nth_set_nth_same {A} (l : list A) k x d : k < length l -> nth k (set_nth k x l) d = x.
+Proof. revert k; induction l as [|a l IH]; intros [|k] H; simpl in *; try lia; auto. apply IH. lia. Qed.
+Lemma nth_set_nth_other {A} (l : list A) k j x d : j <> k -> nth j (set_nth k x l) d = nth j l d.
+Proof. revert k j; induction l as [|a l IH]; intros [|k] [|j] H; simpl in *; auto; try contradiction. Qed.
+
+Lemma written_files_app files w off t : written (nth w files []) off t -> written (nth w (files ++ [[]]) []) off t.
+Proof. intros H. pose proof (written_nonempty_file _ _ _ _ H). rewrite app_nth1 by auto. exact H. Qed.
+Lemma written_files_set files w0 w off t x : written (nth w0 files []) off t ->
+  written (nth w0 (set_nth w (nth w files [] ++ x) files) []) off t.
+Proof.
+  intros H. pose proof (written_nonempty_file _ _ _ _ H). destruct (Nat.eq_dec w0 w) as [->|Hne].
+  - rewrite nth_set_nth_same by auto. apply written_app. exact H.
+  - rewrite nth_set_nth_other by auto. exact H.
+Qed.
+
+Lemma files_local s s' p pr pr' : AInv s -> files_ok s -> nth_error (ss_procs s) p = Some pr ->
+  ss_index s' = ss_index s -> ss_files s' = ss_files s -> ss_texts s' = ss_texts s -> ss_procs s' = set_nth p pr' (ss_procs s) ->
+  p_wid pr' = p_wid pr -> (forall g t, pending_pc (p_pc pr) g t -> pending_pc (p_pc pr') g t) ->
+  (ss_lock s' = ss_lock s \/ ss_lock s = None \/ (ss_lock s = Some p /\ forall g t, ~ pending_pc (p_pc pr) g t)) -> files_ok s'.
+Proof.
+  intros AI Bf N E1 E2 E3 E4 Ew Hp Hl g t Hin. rewrite E3 in Hin. destruct (Bf g t Hin) as (w & off & Hi & [Hw|(Ho & p0 & pr0 & Hl0 & Hn0 & Hwid & Hpe)]);
+    exists w, off; rewrite E1, E2; (split; [exact Hi|]); [left; exact Hw|].
+  right. split; auto. destruct (Nat.eq_dec p0 p) as [->|Hne].
+  - assert (pr0 = pr) by congruence. subst pr0. exists p, pr'. rewrite E4, (nth_error_set_nth_eq _ _ _ _ N). repeat split; auto; try congruence.
+    destruct Hl as [->|[Hn|[_ Hn]]]; [exact Hl0 | congruence | exfalso; eapply Hn; eauto].
+  - exists p0, pr0. rewrite E4, nth_error_set_nth_neq by auto. repeat split; auto.
+    destruct Hl as [->|[Hn|[Hn _]]]; [exact Hl0 | congruence | congruence].
+Qed.
+
+Lemma binv_step s p s' : AInv s -> BInv s -> sstep s p = Some s' -> BInv s'.
+Proof.
+  intros AI [Bn Bi Bt Bf Bw Br Bo] H. destruct (sstep_procs s p s' H) as (pr & N & _).
+  pose proof (a_lock _ AI p pr N) as Alp. pose proof (a_prog _ AI p pr N) as (Apo & Aph & Apw).
+  sstep_cases H N; unfold lock_free_for, upd_proc, finish in *; simpl in *.
+  all: assert (Hd : forall g0 t0 o0 l0, pc_head (PW1 g0 t0) (o0 :: l0) -> Forall op_ok (o0 :: l0) -> o0 = SWrite g0 t0 /\ text_ok t0)
+         by (intros g0 t0 o0 l0 (rest & E) F; injection E as -> _; inversion F; subst; auto).
+  all: constructor; simpl.
+  (* b_nd *)
+  all: try exact Bn.
+  all: try (rewrite map_app; simpl; apply NoDup_app_single; split; [exact Bn|]; intros Hin; apply Bi in Hin; destruct Hin as (e & He);
+            rewrite <- (idx_get_extend (ss_index s) g g) in He; congruence).
+  (* b_idx *)
+  all: try exact Bi.
+  all: try (intros g0; rewrite <- Bi; unfold stored; rewrite idx_get_extend; reflexivity).
+  all: try (intros g0; rewrite map_app, in_app_iff; simpl; rewrite <- Bi; unfold stored; rewrite idx_get_set by apply extend_length;
+            rewrite idx_get_extend; destruct (g0 =? g) eqn:E; [apply Nat.eqb_eq in E; subst; split; eauto | apply Nat.eqb_neq in E; split; [tauto | intros [?|[?|[]]]; [assumption | congruence]]]).
+  (* b_tok *)
+  all: try exact Bt.
+  all: try (apply Forall_app; split; [exact Bt|]; constructor; [|constructor]; simpl;
+            destruct (Hd _ _ _ _ Aph Apo) as [_ Ht]; exact Ht).
+  (* b_files: postponed - rotate the goals so that the simple fields come first *)
+  all: try (intros q prq g0 t0 Hq Hw; try (apply nth_set_nth_cases in Hq; destruct Hq as [[-> ->]|[Hne Hq]]); simpl in *; try discriminate;
+            first [ solve [eapply Bw; eauto]
+                  | solve [apply in_or_app; left; eapply Bw; eauto]
+                  | solve [injection Hw as <- <-; eapply Bw; [exact N|]; match goal with Hp : p_pc _ = _ |- _ => rewrite Hp end; reflexivity]
+                  | solve [injection Hw as <- <-; apply in_or_app; right; left; reflexivity] ]).
+  (* b_rd *)
+  all: try (intros q prq g0 w0 off0 Hq Hpc; try (apply nth_set_nth_cases in Hq; destruct Hq as [[-> ->]|[Hne Hq]]); simpl in *; try discriminate;
+            destruct (Br q prq g0 w0 off0 Hq Hpc) as (t0 & Hin & Hw); exists t0;
+            (split; [first [exact Hin | apply in_or_app; left; exact Hin]
+                    | first [exact Hw | apply written_files_app; exact Hw | apply written_files_set; exact Hw]]); fail).
+  (* b_out: everything but the output just produced *)
+  all: try (intros q prq o1 r1 Hq Hin; try (apply nth_set_nth_cases in Hq; destruct Hq as [[-> ->]|[Hne Hq]]); simpl in *;
+            try (apply in_app_or in Hin; destruct Hin as [Hin|[Hin|[]]]);
+            first [ solve [eapply Bo; eauto]
+                  | solve [eapply out_mono; [|eapply Bo; eauto]; intros x Hx; apply in_or_app; left; exact Hx]
+                  | idtac ]).
+  (* b_files for the steps that leave index, files and texts alone *)
+  all: try (eapply (files_local s _ p pr); simpl;
+            first [ exact AI | exact Bf | exact N | reflexivity | (symmetry; assumption) | assumption
+                  | solve [(match goal with Hp : p_pc _ = _ |- _ => rewrite Hp end); intros g1 t1 [E|[E|[E|E]]]; try discriminate;
+                           injection E as <- <-; unfold pending_pc; simpl; auto]
+                  | solve [left; reflexivity]
+                  | solve [right; left; match goal with Hb : match ss_lock _ with _ => _ end = true |- _ => revert Hb end; destruct (ss_lock s); intros; [discriminate | reflexivity]]
+                  | solve [right; right; split; [apply Alp; reflexivity|];
+                           (match goal with Hp : p_pc _ = _ |- _ => rewrite Hp end); intros g1 t1 [E|[E|[E|E]]]; discriminate] ]; fail).
+  - (* open: a new empty file *)
+    intros gX tX Hin. destruct (Bf gX tX Hin) as (wX & offX & Hi & [Hw|(Ho & pX & prX & Hl0 & Hn0 & Hwid & Hpe)]); exists wX, offX; (split; [exact Hi|]).
+    + left. apply written_files_app. exact Hw.
+    + exfalso. rewrite Hl0 in *. discriminate.
+  - injection Hin as <- <-. exact Logic.I.
+  - injection Hin as <- <-. exact Logic.I.
+  - (* ValueError: only the index may have been extended *)
+    intros gX tX Hin. destruct (Bf gX tX Hin) as (wX & offX & Hi & [Hw|(Ho & pX & prX & Hl0 & Hn0 & Hwid & Hpe)]); exists wX, offX; simpl; rewrite idx_get_extend; (split; [exact Hi|]).
+    + left. exact Hw.
+    + exfalso. assert (E : ss_lock s = Some p) by (apply Alp; reflexivity). assert (pX = p) by congruence. subst pX.
+      assert (prX = pr) by congruence. subst prX. destruct Hpe as [E1|[E1|[E1|E1]]]; congruence.
+  - destruct (Hd _ _ _ _ Aph Apo) as [-> _]. injection Hin as <- <-. right. split; auto. apply Bi.
+    match goal with He : idx_get (extend _ _) _ = Some _ |- _ => rewrite idx_get_extend in He; eexists; exact He end.
+  - (* W1: the new entry is pending, the old ones are written *)
+    assert (Lk : ss_lock s = Some p) by (apply Alp; reflexivity).
+    assert (Gn : idx_get (ss_index s) g = None) by (match goal with He : idx_get (extend _ _) _ = None |- _ => rewrite idx_get_extend in He; exact He end).
+    intros gX tX Hin. apply in_app_or in Hin. destruct Hin as [Hin|[Hin|[]]].
+    + destruct (Bf gX tX Hin) as (wX & offX & Hi & [Hw|(Ho & pX & prX & Hl0 & Hn0 & Hwid & Hpe)]); exists wX, offX.
+      * simpl. split; [|left; exact Hw]. rewrite idx_get_set by apply extend_length. rewrite idx_get_extend.
+        destruct (gX =? g) eqn:E; [apply Nat.eqb_eq in E; subst; congruence | exact Hi].
+      * exfalso. assert (pX = p) by congruence. subst pX. assert (prX = pr) by congruence. subst prX.
+        destruct Hpe as [E1|[E1|[E1|E1]]]; congruence.
+    + injection Hin as <- <-. exists n, (length (nth n (ss_files s) [])). simpl. split.
+      * rewrite idx_get_set by apply extend_length. rewrite Nat.eqb_refl. reflexivity.
+      * right. split; auto. exists p. eexists. rewrite (nth_error_set_nth_eq _ _ _ _ N). repeat split; auto. left. reflexivity.
+  - (* one iteration of the waiting_for loop *)
+    intros gX tX Hin. exact (Bf gX tX Hin).
+  - (* W4: the pending line is written *)
+    assert (Lk : ss_lock s = Some p) by (apply Alp; reflexivity).
+    intros gX tX Hin. destruct (Bf gX tX Hin) as (wX & offX & Hi & [Hw|(Ho & pX & prX & Hl0 & Hn0 & Hwid & Hpe)]); exists wX, offX; (split; [exact Hi|]).
+    + left. apply written_files_set. exact Hw.
+    + left. assert (pX = p) by congruence. subst pX. assert (prX = pr) by congruence. subst prX.
+      assert (wX = n) by congruence. subst wX.
+      assert (E : PW4 g t = PW4 gX tX) by (destruct Hpe as [E1|[E1|[E1|E1]]]; congruence). injection E as <- <-.
+      simpl. rewrite nth_set_nth_same by assumption. subst offX. apply written_new.
+  - (* W5 *)
+    destruct Aph as (rest & E). injection E as -> _. injection Hin as <- <-. left. split; auto.
+    eapply Bw; [exact N|]. match goal with Hp : p_pc _ = _ |- _ => rewrite Hp end. reflexivity.
+  - (* R1 -> R2: the entry found under the lock is complete *)
+    intros Hpc. apply nth_set_nth_cases in Hin. destruct Hin as [[-> ->]|[Hne Hin]].
+    + simpl in Hpc. injection Hpc as <- <- <-.
+      assert (Lk : ss_lock s = Some p) by (apply Alp; reflexivity).
+      assert (St : stored (ss_index s) g) by (eexists; eassumption). apply Bi in St. apply in_map_iff in St. destruct St as ([gY tY] & E & Hin). simpl in E. subst gY.
+      destruct (Bf g tY Hin) as (wX & offX & Hi & [Hw|(Ho & pX & prX & Hl0 & Hn0 & Hwid & Hpe)]).
+      * exists tY. split; auto. assert (E : (wX, offX) = (n, n0)) by congruence. injection E as <- <-. exact Hw.
+      * exfalso. assert (pX = p) by congruence. subst pX. assert (prX = pr) by congruence. subst prX. destruct Hpe as [E1|[E1|[E1|E1]]]; congruence.
+    + apply (Br q prq o1 r1 Hq Hin Hpc).
+  - injection Hin as <- <-. destruct Aph as (rest & E). injection E as -> _. left. reflexivity.
+  - (* R2: the line read is the text *)
+    injection Hin as <- <-. destruct Aph as (rest & E). injection E as -> _.
+    destruct (Br p pr g w off N) as (tY & Hin & Hw); [assumption|]. right. exists tY. split; auto. f_equal. apply line_at_written; auto.
+    rewrite Forall_forall in Bt. apply (Bt (g, tY) Hin).
+  - injection Hin as <- <-. destruct Aph as (rest & E). injection E as -> _. exact Logic.I.
+Qed.
